@@ -36,7 +36,8 @@ ExecGroup(toks) ==
 Apply(w, b) ==
   IF IsSplittable(Patterns, w) THEN
      LET g == ExecGroup(Split(Patterns, w)) IN
-     IF g.st # "ok" THEN R(g.st, b)
+     IF g.st = "incomplete" THEN R("nan", b)         \* repaired: a compound ending on a dangling conjunction is not a number
+     ELSE IF g.st # "ok" THEN R(g.st, b)
      ELSE IF DLen(g.ds) > 3 /\ DLen(g.ds) <= 6 /\ ~IsRangeFree(b, 3, 5) THEN R("overlap", b)
      ELSE LET r == Put(b, g.ds.buf) IN
           IF r.st # "ok" THEN R(r.st, b)
